@@ -35,7 +35,8 @@ def corpus_cases():
     return hist.reader_seek_cases("c04", ["mem", "phys", "alt_mem", "ovl_mm", "ovl_m"]) + \
         hist.open_handle_cases("c04", ["mem", "phys", "alt_mem", "ovl_mm", "ovl_mmm", "ovl_sub", "alt_ovl"]) + \
         hist.transfer_name_cases("c04", ["mem", "phys", "alt_mem", "ovl_mm", "ovl_mp"]) + \
-        hist.big_text_cases("c04", ["mem", "phys", "alt_mem", "ovl_mm", "ovl_mp"])
+        hist.big_text_cases("c04", ["mem", "phys", "alt_mem", "ovl_mm", "ovl_mp"]) + \
+        hist.overwrite_session_cases("c04", ["mem", "alt_mem", "ovl_mm", "ovl_sub"])
 
 
 MIX = ["createfile"] * 6 + ["append"] * 4 + ["copyfile"] * 2 + ["movefile"] * 2 + ["readtostring"] * 2 + ["createdir", "metadata", "removefile"]
